@@ -43,6 +43,8 @@ LEAVES = [
     (bip("unify", cplx("pair", X0, Y0), cplx("pair", integer(1), integer(2))), "pair($X, $Y) = pair(1, 2)"),
     (bip("unify", lst([cplx("f", X0)], var(0, "$T")), lst([cplx("f", atom("a")), cplx("g", atom("b"))])), "[f($X) | $T] = [f(a), g(b)]"),
     (bip("unify", cplx("f", lst([X0])), X0), "f([$X]) = $X"),
+    # a goal without arguments: Display writes go(), which must parse back
+    (call(cplx("go")), "go()"),
 ]
 
 # goal trees: ("leaf", k) | ("and", [..]) | ("or", [..])
@@ -121,6 +123,8 @@ def cases(tier, rng):
         ("parse-rule", "p($X) :- $X = 1, $X = 2; $X = 3.", rule(cplx("p", X0), op("or", op("and", U1, U2), U3))),
         ("parse-rule", "r($X) :- ($X = 1; $X = 2), $X = 2.", rule(cplx("r", X0), op("and", op("or", U1, U2), U2))),
         ("generate-goal", "a(1), ((b(1); a(1)), $X = 1)", op("and", A1, op("and", op("or", B1, A1), U1))),
+        ("parse-rule", "p :- go, a(1).", rule(cplx("p"), op("and", call(cplx("go")), A1))),
+        ("parse-rule", "p() :- go(), a(1).", rule(cplx("p"), op("and", call(cplx("go")), A1))),
         ("generate-goal", "((a(1)))", A1),
         ("generate-goal", "(a(1), b(1)), a(1)", op("and", op("and", A1, B1), A1)),
     ]
